@@ -3,6 +3,9 @@
 Space: for every corpus program of the slice EVERY single structure-aware mutation (mc.c20_mutate):
 kinds 1-3 (delete / duplicate / swap-with-next of each top-level or class-level statement); thorough
 additionally kinds 4-8 (rename, retype, truncate, cyclic definitions, pairs of 1-3) on a sub-slice.
+Plus, in both tiers, the placement lane (mc.c20_place, kind 9): every context-sensitive statement / expression of
+a stated alphabet placed in every kind of suite (loop bodies and loop else, try/except/except*/else/finally, with,
+if, match-case, def / async def / class, lambda, comprehensions, defaults, annotations, f-strings), nesting depth <= 2.
 Each mutant (and each original) is given to the REAL mypy with the BUNDLED typeshed:
   batch lane   mypy.main.main in a fresh fork, warmed stdlib cache (fresh copy per run), 60 s limit;
   daemon lane  a warmed mypy.dmypy_server.Server forked per mutant: original -> mutant -> original.
@@ -22,6 +25,7 @@ from typing import Any
 
 from mc import c20_lane as L
 from mc import c20_mutate as M
+from mc import c20_place as P
 from mc import corpus
 from mc.common import Ctx, Result, Violation, log, scratch, seeded_order
 from mc.kernel import pmap
@@ -79,6 +83,8 @@ def load_programs(patterns: list[str]) -> dict[str, list[dict[str, Any]]]:
 
 def gen_mutants(prog: dict[str, Any], kinds: tuple[int, ...]) -> list[tuple[int, str, str]]:
     src = prog["main"]
+    if "muts" in prog:  # placement lane: the programs were enumerated by mc.c20_place, "original" = its prelude
+        return M.dedupe(src, iter(prog["muts"]))
     parts = []
     if 1 in kinds:
         parts.append(M.k123(src))
@@ -147,6 +153,31 @@ def select_slice(ctx: Ctx) -> tuple[list[tuple[dict, tuple[int, ...]]], dict[str
                     f"VERIF_SEED-ordered sub-slice holding ~{T_EXTRA_BUDGET} such mutants (programs with more than "
                     f"{T_EXTRA_PER_PROGRAM} are skipped); every selected program is explored completely for its kinds")
     return [(p, (1, 2, 3, 4, 5, 6, 7, 8) if p["id"] in extra_ids else (1, 2, 3)) for p in allp], info
+
+
+def placement_slice() -> tuple[list[tuple[dict, tuple[int, ...]]], dict[str, Any]]:
+    """Every placement of mc.c20_place (both tiers, independent of the seed), cut into work items.  Each item is
+    a pseudo corpus program whose original is the common prelude and whose mutants are the placement programs, so
+    both lanes treat it exactly like a corpus program (daemon: prelude -> placement -> prelude)."""
+    pairs: list[tuple[dict, tuple[int, ...]]] = []
+    n = 0
+    by_depth: Counter = Counter()
+    accepts = 0
+    for gname, muts in P.grouped(max_contexts=2):
+        prog = {"id": f"<placement>::{gname}", "file": "<placement>", "name": gname, "line": 0, "tags": [], "main": P.PRELUDE,
+                "files": {}, "flags": [], "flags_dropped": False, "corpus_flags": [], "muts": muts, "scan_extra": P.SCAN_EXTRA}
+        pairs.append((prog, (9,)))
+        n += len(muts)
+        accepts += sum(1 for _k, _d, t in muts if P.cpython_accepts(t))
+    for _d, _t, depth in P.programs(2):
+        by_depth[depth] += 1
+    info = {"programs": n, "work_items": len(pairs), "by_number_of_contexts": {str(k): by_depth[k] for k in sorted(by_depth)},
+            "statements": len(P.STATEMENTS), "expressions": len(P.EXPRESSIONS), "statement_contexts": len(P.CONTEXTS),
+            "expression_contexts": len(P.EXPR_CONTEXTS), "accepted_by_cpython_compile": accepts,
+            "rejected_by_cpython_compile_but_parsed": n - accepts,
+            "rule": "PRELUDE + C1[C2[S]] for every S in STATEMENTS + EXPRESSIONS and every 0, 1 or 2 enclosing contexts (innermost may be "
+                    "an expression context for the EXPRESSIONS); the whole product, no sampling"}
+    return pairs, info
 
 
 # --------------------------------------------------------------------------- worker
@@ -364,6 +395,8 @@ def _prepare_masters(pairs: list[tuple[dict, tuple[int, ...]]], root: str, warm_
         e = by_key.setdefault(key, {"flags": list(p["flags"]), "texts": []})
         e["texts"].append(p["main"])
         e["texts"].extend(p["files"].values())
+        if p.get("scan_extra"):
+            e["texts"].append(p["scan_extra"])
         p["master_key"] = key
     items = []
     for key in sorted(by_key):
@@ -423,6 +456,9 @@ def run(ctx: Ctx) -> Result:
     _preconditions(root)
     herr: list[str] = []
     pairs, slice_info = select_slice(ctx)
+    place_pairs, place_info = placement_slice()
+    pairs = pairs + place_pairs
+    slice_info["placement"] = place_info
     if not pairs:
         raise RuntimeError("empty corpus slice")
     warm_violations: list[Violation] = []
@@ -452,7 +488,7 @@ def run(ctx: Ctx) -> Result:
     if len(progs) != len(pairs):
         raise RuntimeError("duplicate case ids in the corpus slice")
     # biggest programs first (load balance only; the minimal witness per signature is chosen explicitly below)
-    est = {p["id"]: len(p["main"]) * (8 if 4 in k else 1) for p, k in pairs}
+    est = {p["id"]: (40 * len(p["muts"]) if "muts" in p else len(p["main"]) * (8 if 4 in k else 1)) for p, k in pairs}
     items = [(p, k, masters[p["master_key"]], True) for p, k in sorted(pairs, key=lambda pk: -est[pk[0]["id"]])]
 
     evaluations = 0
@@ -552,12 +588,15 @@ def run(ctx: Ctx) -> Result:
         "signatures": sig_summary,
         "samples": [
             {"case": p["id"], "flags": p["flags"], "mutation": d, "mutant_main.py": t}
-            for p, (k, d, t) in ((pairs[0][0], m) for m in gen_mutants(pairs[0][0], pairs[0][1])[:2])
+            for p, (k, d, t) in ([(pairs[0][0], m) for m in gen_mutants(pairs[0][0], pairs[0][1])[:2]]
+                                 + [(place_pairs[len(place_pairs) // 2][0], m) for m in place_pairs[len(place_pairs) // 2][0]["muts"][:2]])
         ],
     }
     vac = []
-    if n_mut < 500:
-        vac.append(f"only {n_mut} mutants")
+    if kinds[1] + kinds[2] + kinds[3] < 500:
+        vac.append(f"only {kinds[1] + kinds[2] + kinds[3]} corpus mutants of kinds 1-3")
+    if kinds[9] != place_info["programs"] or kinds[9] < 10000:
+        vac.append(f"placement lane ran {kinds[9]} of {place_info['programs']} enumerated programs")
     if len(nontrivial) < n_mut * 0.3:
         vac.append(f"only {len(nontrivial)} of {n_mut} mutants got past the parser")
     if changed < n_mut * 0.05:
@@ -576,6 +615,8 @@ def run(ctx: Ctx) -> Result:
         "corpus `# flags:` are passed through only if all of them are in a whitelist of check/report-format flags; otherwise the "
         "case runs with default flags; the daemon lane always uses default flags",
         "class bodies emptied by a deletion get `pass` (kind 1) so the mutant stays structural",
+        "placement lane (kind 9): the statement / context alphabets of mc.c20_place are the stated finite space, nesting depth <= 2; "
+        "CPython's compile() verdict on these programs is recorded but not used as an oracle",
         "the stdlib cache is warmed once per cache-relevant option set and copied fresh for every run; a run over 60 s wall is "
         "repeated and judged by its CPU time before it is called a hang",
     ]
